@@ -248,6 +248,26 @@ class ShavingWatcher:
         self.limit = limit
         self.undecidable = False
 
+    def on_shave(self, bound, dom_idx, shaved, before, a):
+        """After a probe: the probed value is removed iff it was refuted, and then the watchers of the moved bound are queued."""
+        if self.bad:
+            return
+        shr_stack, flags_stack, stacks_top, triggered, triggers = a[12], a[13], a[15], a[16], a[11]
+        top = int(stacks_top[0])
+        cur = shr_stack[top, dom_idx]
+        want = before.copy()
+        if shaved:
+            want[bound] += 1 if bound == 0 else -1
+        if cur[0] != want[0] or cur[1] != want[1]:
+            self.bad = "probing the %s of domain %d = %s (%s) left it at %s instead of %s" % ("min" if bound == 0 else "max", dom_idx, before.tolist(), "refuted" if shaved else "not refuted", cur.tolist(), want.tolist())
+            return
+        if shaved and cur[0] <= cur[1]:
+            need = (1 if bound == 0 else 2) | (4 if cur[0] == cur[1] else 0)
+            for p in range(triggers.shape[1]):
+                if flags_stack[top, p] and (int(triggers[dom_idx, p]) & need) and not triggered[p]:
+                    self.bad = "after shaving the %s of domain %d to %s the enabled constraint %d, which watches that change (mask %d), is not queued for propagation" % ("min" if bound == 0 else "max", dom_idx, cur.tolist(), p, int(triggers[dom_idx, p]))
+                    return
+
     def on_shaving(self, before, entry, status, args):
         if self.bad:
             return
@@ -267,7 +287,7 @@ class ShavingWatcher:
                 if cur[d, 0] > cur[d, 1] or cur[d, 0] < before[d, 0] or cur[d, 1] > before[d, 1]:
                     self.bad = "%s returned domain %d = %s (was %s)" % (where, d, cur[d].tolist(), before[d].tolist())
                     return
-        if self.calls > self.limit:
+        if self.calls > 8 * self.limit:
             return
         # plain bound consistency on a copy of the entry state
         H = top + 3
@@ -297,8 +317,25 @@ class ShavingWatcher:
                 if cur[d, 0] < bc_box[d, 0] or cur[d, 1] > bc_box[d, 1]:
                     self.bad = "%s returned %s, not contained in what plain bound consistency returns: %s" % (where, _box(cur), _box(bc_box))
                     return
+            # ... and at least as strong as plain bound consistency on its own result: BC with every enabled constraint
+            # woken, run on a copy of the returned state, must neither fail nor remove anything
+            shr3 = shr2.copy()
+            shr3[top] = cur
+            fl3 = fl2.copy()
+            fl3[top] = flags_stack[top]
+            trig3 = flags_stack[top].copy()
+            top3 = np.array([top], dtype=stacks_top.dtype)
+            saved = interpose.CURRENT
+            interpose.CURRENT = None
+            try:
+                st3 = int(interpose.ORIG["bc"](np.zeros_like(statistics), algorithms, var_bounds, param_bounds, dia, doa, pdi, pdo, pparams, triggers, shr3, fl3, np.zeros_like(upd2), top3, trig3, addrs, dd))
+            finally:
+                interpose.CURRENT = saved
+            if st3 == nx.PROBLEM_INCONSISTENT or not np.array_equal(shr3[top], cur):
+                self.bad = "%s returned %s, on which plain bound consistency %s: the result is weaker than bound consistency" % (where, _box(cur), "fails" if st3 == nx.PROBLEM_INCONSISTENT else "still prunes to %s" % _box(shr3[top]))
+                return
         # no solution of the entry sub-box is lost
-        if shr_box_size(self.pc, _box(before)) <= 3000:
+        if self.calls <= self.limit and shr_box_size(self.pc, _box(before)) <= 3000:
             sols, und = brute_force(self.pc, _box(before))
             if und:
                 self.undecidable = True
@@ -369,7 +406,7 @@ def check_c10(case):
 @st.composite
 def c10_case(draw, tier):
     big = tier != "quick"
-    pc = draw(gen.problem_case(max_shr=5 if not big else 7, max_w=4, max_props=4 if not big else 5, max_arity=4, max_points=3000 if not big else 30000))
+    pc = draw(gen.problem_case(max_shr=5 if not big else 7, max_w=4, max_props=4 if not big else 5, max_arity=4, max_points=3000 if not big else 30000, profiles=("general", "general", "bool", "perm", "nonneg", "wide", "onedir", "onedir")))
     cfg = draw(gen.config(pc, cons=["shaving"]))
     nv = len(pc["idx"])
     op = draw(st.sampled_from([["iter"], ["iter"], ["iter"], ["min", draw(st.integers(0, nv - 1))], ["max", draw(st.integers(0, nv - 1))]]))
@@ -402,7 +439,9 @@ def stat_laws(stats, n, op, out, cfg):
     eq("SOLVER_CHOICE_DEPTH", n["max_top"], "deepest stack level after a choice")
     eq("ALG_BC_NB", n["bc"], "bound consistency passes")
     eq("ALG_BC_WITH_SHAVING_NB", n["shaving"], "shaving calls")
-    eq("ALG_SHAVING_NB", n["shave_backtrack"], "shaving attempts")
+    eq("ALG_SHAVING_NB", n["shave_try"], "shaving attempts")
+    eq("ALG_SHAVING_CHANGE_NB", n["shave_ok"], "successful shaving attempts")
+    eq("ALG_SHAVING_NO_CHANGE_NB", n["shave_ko"], "unsuccessful shaving attempts")
     if stats["ALG_SHAVING_CHANGE_NB"] + stats["ALG_SHAVING_NO_CHANGE_NB"] != stats["ALG_SHAVING_NB"]:
         bad.append("ALG_SHAVING_CHANGE_NB + ALG_SHAVING_NO_CHANGE_NB = %d + %d != ALG_SHAVING_NB = %d" % (stats["ALG_SHAVING_CHANGE_NB"], stats["ALG_SHAVING_NO_CHANGE_NB"], stats["ALG_SHAVING_NB"]))
     eq("SOLVER_SOLUTION_NB", n["alg_bound"], "times the search reached a solution")
